@@ -341,6 +341,32 @@ Section ModelIsSource.
     Some (src_env_occ R o t) = occ_at (Env i ty (eo_shape o)) t.
   Proof. exact (src_env_occ_eq S R tstep place). Qed.
 End ModelIsSource.
+(* TrajectoryPrediction._create_occupancy_set is translated too (states that carry an orientation, no wheelbase
+   lengths): the list it returns is the model's [occupancy_set], one occupancy per state of the trajectory, at the
+   state's time step, the prediction's shape placed at the state; and a prediction whose cached occupancy_set is that
+   value needs no cache hypothesis: the translated occupancy_at_time_step / occupancy_at_time are the model's. *)
+Section CreateIsSource.
+  Variables S R : Type.
+  Variable tstep : S -> Z.
+  Variable osfs : R -> S -> R.        (* occupancy_shape_from_state(shape, state) *)
+  Theorem C04_create_occupancy_set_is_source : forall q : traj_pred_src S R,
+    map occ_of_step (src_create_occs S R tstep osfs q) = occupancy_set S R tstep (osfs (ts_shape q)) (ts_traj q).
+  Proof. exact (src_create_occs_eq S R tstep osfs). Qed.
+  Theorem C04_trajectory_prediction_is_source : forall q p t,
+    cache_from_source S R tstep osfs q p ->
+    src_pred_occ_traj S R p t = pred_occupancy_at S R tstep (osfs (ts_shape q)) (emb_traj S R p) t.
+  Proof. exact (src_pred_occ_traj_from_source S R tstep osfs). Qed.
+  Theorem C04_dynamic_with_trajectory_is_source : forall i ty q (o : dyn_obs S R (traj_pred S R)) t,
+    dyn_shape_ok S R (osfs (ts_shape q)) o -> cache_from_source S R tstep osfs q (do_pred o) ->
+    src_dyn_occ_traj S R tstep o t
+    = occupancy_at_time S R tstep (osfs (ts_shape q)) (emb_dyn S R i ty (fun p => Some (emb_traj S R p)) o) t.
+  Proof. exact (src_dyn_occ_traj_from_source S R tstep osfs). Qed.
+End CreateIsSource.
+Example C04_create_is_source_nonvacuous :
+  cache_from_source Z Z (fun s => s) (fun sh s => sh * s)%Z
+    {| ts_traj := {| t_init := 3; t_states := [3; 4]%Z |}; ts_shape := 10%Z; ts_wheelbase := tt |}
+    {| tp_traj := {| t_init := 3; t_states := [3; 4]%Z |}; tp_occs := [(3, 30); (4, 40)]%Z |}.
+Proof. exact cache_from_source_example. Qed.
 (* the cache hypothesis is satisfiable: a trajectory prediction whose cached set is what _create_occupancy_set computes *)
 Example C04_model_is_source_nonvacuous :
   occs_ok Z Z (fun s => s) (fun s => 10 * s)%Z
@@ -398,3 +424,7 @@ Print Assumptions C04_enclosure_nonvacuous.
 Print Assumptions C04_model_is_source.
 Print Assumptions C04_model_is_source_nonvacuous.
 Print Assumptions C04_model_is_source_environment.
+Print Assumptions C04_create_occupancy_set_is_source.
+Print Assumptions C04_trajectory_prediction_is_source.
+Print Assumptions C04_dynamic_with_trajectory_is_source.
+Print Assumptions C04_create_is_source_nonvacuous.
